@@ -364,6 +364,10 @@ class Executor:
                 out = v.fields[n - 1]
                 for i in range(n - 2, -1, -1):
                     out = z3.If(idx == i, v.fields[i], out)
+                # remember which table / index this term was read from (used for injectivity arguments)
+                sel = dict(path.env.get('selects', {}))
+                sel[out.get_id()] = (tuple(v.fields[i] for i in range(n)), idx)
+                path.env['selects'] = sel
                 return out
             if isinstance(v, SeqV):
                 if isinstance(idx, int):
@@ -471,18 +475,7 @@ class Executor:
         if name.endswith('f32>::EPSILON') or name == 'core::f32::<impl f32>::EPSILON':
             return self.float_const('1.1920929e-7') if self.float_mode != 'real' else z3.RealVal(1) / z3.RealVal(2**23)
         # promoted / const item of this crate
-        cand = None
-        if self.m.has(name):
-            cand = name
-        else:
-            # "proc_gen::VAR_NAME_CHARS" may be listed as "VAR_NAME_CHARS" or with its module path
-            short = name.split('::')[-1]
-            for n in (name, short):
-                hits = [x for x in self.m.index if x == n or x.endswith('::' + n)]
-                hits = [h for h in hits if self.m.headers[h].startswith(('const', 'static'))]
-                if len(hits) == 1:
-                    cand = hits[0]
-                    break
+        cand = self.resolve_item(name, ('const', 'static'))
         if cand is not None and self.m.headers[cand].startswith(('const', 'static')):
             if cand not in self.const_cache:
                 fn = self.m.get(cand)
@@ -501,6 +494,22 @@ class Executor:
         if self.m.has(name) or any(x == name for x in self.m.index):
             return FnItem(name)
         return FnItem(name)
+
+    def resolve_item(self, name, kinds):
+        """find the dump item a path refers to: the dump prints some items with, some without their module path."""
+        segs = name.split('::')
+        for i in range(len(segs)):
+            suffix = '::'.join(segs[i:])
+            hits = [x for x in self.m.index
+                    if (x == suffix or x.endswith('::' + suffix)) and self.m.headers[x].startswith(kinds)]
+            if len(hits) == 1:
+                return hits[0]
+            if len(hits) > 1:
+                exact = [h for h in hits if h == suffix]
+                if len(exact) == 1:
+                    return exact[0]
+                return None
+        return None
 
     def detach(self, p, v, sub):
         if isinstance(v, Ref):
@@ -948,6 +957,8 @@ class Executor:
     def find_contract(self, callee):
         for rx, fn in self.contracts:
             if re.search(rx, callee):
+                self.stats.setdefault('contracts_used', {})
+                self.stats['contracts_used'][fn.__name__] = self.stats['contracts_used'].get(fn.__name__, 0) + 1
                 return fn
         return None
 
